@@ -853,6 +853,12 @@ def gen_C04(rng, tier):
         if r.random() < 0.2:
             tags.insert(r.randrange(len(tags) + 1), g.custom())
         cases.append(mbi_case(dirty_padding(E.mbi(tags), rng, 0.7)))
+    # long regions: the first tag of a kind only after 22..60 custom and module tags (a getter must walk everything)
+    for k in g.KINDS:
+        nb = g.r.choice([22, 23, 24, 33, 60])
+        tags = [g.custom() if g.r.random() < 0.8 else g.module() for _ in range(nb)] + [getattr(g, k)()]
+        cases.append(mbi_case(E.mbi(tags)))
+        count(dist, "long_regions")
     # all 256 framebuffer type bytes
     for b in range(256):
         cases.append(mbi_case(E.mbi([E.t_framebuffer(0x1000, 1, 2, 3, 8, b, E.fb_rgb(1, 2, 3, 4, 5, 6), 0)])))
@@ -935,6 +941,14 @@ def gen_C17(rng, tier):
         cases.append(mbi_case(E.mbi([E.tag(k, fixed + s + b"\0"), E.t_cmdline("ZZ")])))
         cases.append(mbi_case(E.mbi([E.tag(k, fixed + s, fill=rng.choice([0, 0x41])), E.t_bootloader("YY")])))
         count(dist, "short_strings")
+    # the public parse_slice_as_string itself, on bare slices flush against a guard page
+    for s in strs:
+        if len(s) > 3 and rng.random() > keep * 4:
+            continue
+        cases.append("pstr " + hx(s))
+        cases.append("pstr " + hx(s + b"\0"))
+        cases.append("pstr " + hx(s + b"\0" + bytes(rng.choice(ALPHABET) for _ in range(rng.randrange(0, 4)))))
+        count(dist, "bare_slices")
     # declared sizes cutting the string before/at/after its terminator; padding 0x00 vs 0x41; next tag printable
     texts = [b"hello", b"h\xc3\xa9llo", b"\xe2\x82\xac", b"abcdefg", b"abcdefgh", b"", b"a\0b", b"\xf0\x9d\x84\x9e!"]
     for text in texts:
@@ -963,7 +977,8 @@ def gen_C17(rng, tier):
             cases.append("ctor 3 1 2 %s" % hx(b + b"\0"))
             count(dist, "constructed")
     return cases, dict(
-        rule="mbi: every byte string of length <= 4 over {00,61,7F,80,C2,E0,ED,F0,F4,FF} (thorough: all; quick: all of length <= 2 "
+        rule="pstr: parse_slice_as_string on bare slices (the same strings, unterminated / terminated / with bytes behind the "
+             "terminator). mbi: every byte string of length <= 4 over {00,61,7F,80,C2,E0,ED,F0,F4,FF} (thorough: all; quick: all of length <= 2 "
              "and a seeded 6% of the rest) as the content of a command-line / boot-loader-name / module tag, with and without "
              "terminator; eight texts x every declared size cutting before/at/after the terminator x padding 00/41, followed by "
              "a tag with printable bytes; ctor: the three constructors on NUL-free valid UTF-8 strings of every length 0..40 and "
@@ -1119,7 +1134,7 @@ def judge_C19(case, ml, il):
                 return ("ok", "")
             return default_judge(case, ml[:k], il)
         return ("ok", "") if ml == il else default_judge(case, ml, il)
-    return judge_projection(["load", "get", "elf", "elf_section", "elf_end"])(case, ml, il)
+    return judge_projection(["load", "get", "elf", "elf_section", "elf_end", "elf_nth", "elf_count"])(case, ml, il)
 
 
 # ---- header regions --------------------------------------------------------------------------------
@@ -1176,8 +1191,26 @@ def gen_C11(rng, tier):
         reqs = b"".join(E.u32(rng.getrandbits(32) if rng.random() < 0.5 else rng.randrange(0, 24)) for _ in range(n))
         cases.append("hdr " + hx(E.header([E.htag(3, 0, E.u32(7)), E.htag(1, rng.randrange(2), reqs), E.htag(1, 0, E.u32(99))])))
         count(dist, "request_lists")
+    # long headers: the first tag of a kind only after 10..40 tags of other kinds (a getter must walk the whole header)
+    for k in range(1, 11):
+        for nbefore in (10, 11, 12, 13, 24, 40):
+            others = [t for t in range(1, 11) if t != k]
+            tags = [rand_htag(rng, malformed=0) for _ in range(0)]
+            while len(tags) < nbefore:
+                t = rand_htag(rng, malformed=0)
+                typ = int.from_bytes(t[:2], "little")
+                if typ != k and typ != 0:
+                    tags.append(t)
+            for _ in range(100):
+                t = rand_htag(rng, malformed=0)
+                if int.from_bytes(t[:2], "little") == k:
+                    tags.append(t)
+                    break
+            cases.append("hdr " + hx(E.header(tags)))
+            count(dist, "long_headers")
     return cases, dict(
-        rule="hdr (load, walk, all ten typed getters, every accessor): seeded header regions with all 11 tag kinds in random "
+        rule="hdr (load, walk, all ten typed getters, every accessor): long headers in which the first tag of a kind comes after "
+             "10..40 tags of other kinds; seeded header regions with all 11 tag kinds in random "
              "orders and multiplicities, byte-marked field values, enum-typed fields in range (3% wrong sizes); information-request "
              "lists of every length 0..24. distinct_nontrivial = distinct (domain, model transcript) pairs.",
         dist=dist, exhaustive=False)
@@ -1212,9 +1245,9 @@ PROPS.update({
     "C04": dict(gen=gen_C04, configs=["dev", "rel"], judge=judge_mbi_full, check_model_ub=True,
                 assumptions=["known finding F18 (VBEModeInfo.memory_model byte not in 0..=7) is excluded from 'decodes every field'"]),
     "C05": dict(gen=gen_C05, configs=["dev", "rel"], judge=judge_mbi_full, both_placements=True, assumptions=[]),
-    "C17": dict(gen=gen_C17, configs=["dev", "rel"], judge=judge_projection(["load", "get", "cmdline", "bootloader", "modinfo", "module", "modules", "ctor", "as_bytes"]),
+    "C17": dict(gen=gen_C17, configs=["dev", "rel"], judge=judge_projection(["load", "get", "cmdline", "bootloader", "modinfo", "module", "modules", "ctor", "as_bytes", "pstr"]),
                 both_placements=True, assumptions=["Rust &str arguments are valid UTF-8 by the type's invariant"]),
-    "C18": dict(gen=gen_C18, configs=["dev", "rel"], judge=judge_projection(["load", "get", "efi_mmap", "efi_desc", "efi_end"]),
+    "C18": dict(gen=gen_C18, configs=["dev", "rel"], judge=judge_projection(["load", "get", "efi_mmap", "efi_desc", "efi_end", "efi_nth", "efi_count"]),
                 both_placements=True, assumptions=[]),
     "C19": dict(gen=gen_C19, configs=["dev", "rel"], judge=judge_C19,
                 both_placements=True, assumptions=["section names (external addresses) are not dereferenced"]),
